@@ -273,6 +273,16 @@ impl Prop for C09 {
             );
         }
     }
+    fn replay_detail(&self, d: &serde_json::Value) -> Option<Result<String, String>> {
+        // a recorded schedule on a named program is replayed directly, without the search
+        let schedule = d.get("schedule")?.as_str()?;
+        let text = d.get("program")?.as_str()?;
+        sched::parse_hist(schedule)?;
+        let all: Vec<(String, String, Vec<Input>)> =
+            programs().into_iter().map(|(n, b, _, _)| (n.to_string(), format!("use vh\n{b}"), vec![])).collect();
+        let (name, _, inputs) = all.into_iter().find(|(_, t, _)| t == text)?;
+        Some(sched::replay_schedule(&name, text, inputs, schedule))
+    }
     fn rule(&self, tier: Tier) -> String {
         format!(
             "{} producer/consumer programs (int/string/array/tuple/struct/enum/void payloads; producer finished before the read, still running, mutating after the write, \
